@@ -18,6 +18,7 @@ package nsqadmin
 //@   trusted
 //@   ensures result != nil && result == curOpts
 //@   modifies
+//@   nochan
 //@ func (n *NSQAdmin) swapOpts(opts *Options)
 //@   trusted
 //@   modifies
@@ -151,6 +152,9 @@ package nsqadmin
 // split, parse and lie inside the network; otherwise the request is refused with 400 / 403 before the
 // named option is looked up (getOptByCfgName) or the options are swapped (swapOpts).
 //@ pred addrAllowed(cidr string, a string) := (!splitFails(a) && parseIP(hostOf(a)) != nil && ipInCIDR(cidr, parseIP(hostOf(a))))
+// (round 4, area D) two string lists have the same length (the contents are compared by a quantified clause next to each use)
+//@ pred r4DSameStrings(a []string, b []string) := len(a) == len(b)
+//@ fn r4DUserTag(u string) bool
 //@ pred cfgUntouched() := (optSwaps == old(optSwaps) && optReads == old(optReads) && curOpts == old(curOpts))
 //@ func (s *httpServer) doConfig(w http.ResponseWriter, req *http.Request, ps httprouter.Params) (interface{}, error)
 //@   props C17
@@ -160,5 +164,27 @@ package nsqadmin
 //@   ensures[outside-403] old(curOpts.AllowConfigFromCIDR) != "" && !splitFails(cfgRemoteAddr) && parseIP(hostOf(cfgRemoteAddr)) != nil && !ipInCIDR(old(curOpts.AllowConfigFromCIDR), parseIP(hostOf(cfgRemoteAddr))) ==> forbidden(result1)
 //@   ensures[allowed-not-403] old(curOpts.AllowConfigFromCIDR) == "" || addrAllowed(old(curOpts.AllowConfigFromCIDR), cfgRemoteAddr) ==> !forbidden(result1)
 //@   ensures[cidr-kept] curOpts.AllowConfigFromCIDR == old(curOpts.AllowConfigFromCIDR)
+// (round 4, area D) A runtime configuration request never changes who is an admin: whatever the request and its outcome, the
+// options in force afterwards carry the same admin list (same users, in content - a copy is fine) and the same ACL header name
+// as before; only the option NAMED by the request can differ from the options in force before, every other option is kept.
+//@   ensures[admin-list-kept] r4DSameStrings(curOpts.AdminUsers, old(curOpts.AdminUsers))
+//@   ensures[admin-list-content-kept] forall k int :: {curOpts.AdminUsers[k]} 0 <= k && k < len(curOpts.AdminUsers) ==> curOpts.AdminUsers[k] == old(curOpts.AdminUsers[k])
+//@   ensures[acl-header-kept] curOpts.ACLHTTPHeader == old(curOpts.ACLHTTPHeader)
+//@   ensures[same-admins] forall u string :: {r4DUserTag(u)} r4DUserTag(u) ==> (adminId(curOpts, u) <==> old(adminId(curOpts, u)))
+//@   ensures[only-log-level-by-name] paramByName(ps, "opt") != "log_level" ==> curOpts.LogLevel == old(curOpts.LogLevel)
+//@   ensures[only-lookupd-list-by-name] paramByName(ps, "opt") != "nsqlookupd_http_addresses" ==> r4DSameStrings(curOpts.NSQLookupdHTTPAddresses, old(curOpts.NSQLookupdHTTPAddresses))
+//@        && (forall k int :: {curOpts.NSQLookupdHTTPAddresses[k]} 0 <= k && k < len(curOpts.NSQLookupdHTTPAddresses) ==> curOpts.NSQLookupdHTTPAddresses[k] == old(curOpts.NSQLookupdHTTPAddresses[k]))
+//@   ensures[nsqd-list-kept] r4DSameStrings(curOpts.NSQDHTTPAddresses, old(curOpts.NSQDHTTPAddresses))
+//@        && (forall k int :: {curOpts.NSQDHTTPAddresses[k]} 0 <= k && k < len(curOpts.NSQDHTTPAddresses) ==> curOpts.NSQDHTTPAddresses[k] == old(curOpts.NSQDHTTPAddresses[k]))
+//@   ensures[other-options-kept] curOpts.LogPrefix == old(curOpts.LogPrefix) && curOpts.Logger == old(curOpts.Logger) && curOpts.HTTPAddress == old(curOpts.HTTPAddress)
+//@        && curOpts.BasePath == old(curOpts.BasePath) && curOpts.DevStaticDir == old(curOpts.DevStaticDir) && curOpts.GraphiteURL == old(curOpts.GraphiteURL)
+//@        && curOpts.ProxyGraphite == old(curOpts.ProxyGraphite) && curOpts.StatsdPrefix == old(curOpts.StatsdPrefix)
+//@        && curOpts.StatsdCounterFormat == old(curOpts.StatsdCounterFormat) && curOpts.StatsdGaugeFormat == old(curOpts.StatsdGaugeFormat)
+//@        && curOpts.StatsdInterval == old(curOpts.StatsdInterval) && curOpts.HTTPClientConnectTimeout == old(curOpts.HTTPClientConnectTimeout)
+//@        && curOpts.HTTPClientRequestTimeout == old(curOpts.HTTPClientRequestTimeout)
+//@        && curOpts.HTTPClientTLSInsecureSkipVerify == old(curOpts.HTTPClientTLSInsecureSkipVerify) && curOpts.HTTPClientTLSRootCAFile == old(curOpts.HTTPClientTLSRootCAFile)
+//@        && curOpts.HTTPClientTLSCert == old(curOpts.HTTPClientTLSCert) && curOpts.HTTPClientTLSKey == old(curOpts.HTTPClientTLSKey)
+//@        && curOpts.NotificationHTTPEndpoint == old(curOpts.NotificationHTTPEndpoint)
+//@   ensures[get-changes-nothing] optSwaps == old(optSwaps) ==> curOpts == old(curOpts)
 //@   ensures[success-read] result1 == nil ==> optReads == old(optReads) + 1
 //@   modifies curOpts, optSwaps, optReads, cfgRemoteAddr, deref([]string), deref(map[string]any)
